@@ -87,6 +87,24 @@ def items(tier: str) -> List[Any]:
         if s not in seen:
             seen.add(s)
             out.append(("sound", s, None, None))
+    # a two-block subroutine called on two alternative paths that constrain another member differently, one call site
+    # behind another subroutine's return point (the callee's blocks are re-visited with new information on other keys)
+    lit2 = "GD64YIY3TWGDMCNPP553DZPPR6LDUSFQOIJVFDPPXWEG3FVOJCCDBBHU5A"
+    conds = [["gtxn 1 RekeyTo", f"addr {A.LIT1}", "=="], ["gtxn 1 RekeyTo", f"addr {lit2}", "=="], ["gtxn 0 Fee", "int 1000", "<="],
+             ["gtxn 1 TypeEnum", "int pay", "=="], ["int 1", "gtxns Sender", f"addr {A.LIT1}", "=="], ["txn GroupIndex", "int 1", "+", "gtxns RekeyTo", Z, "=="]]
+    two_block = "load 0\nbz chk_done\nint 7\nstore 0\nchk_done:\nretsub\n"
+    templates = [
+        "{C1}\nbz other\ncallsub chk\nint 1\nreturn\nother:\ncallsub prep\n{C2}\nassert\ncallsub chk\nint 1\nreturn\nprep:\nint 7\nstore 0\nretsub\nchk:\n" + two_block,
+        "{C1}\nbnz one\ncallsub prep\n{C2}\nassert\ncallsub chk\nint 1\nreturn\none:\ncallsub chk\nint 1\nreturn\nprep:\nretsub\nchk:\n" + two_block,
+        "{C1}\nbz other\ncallsub chk\nint 1\nreturn\nother:\ncallsub outer\nint 1\nreturn\nouter:\n{C2}\nassert\ncallsub chk\nretsub\nchk:\n" + two_block,
+    ]
+    for t in templates:
+        for c1 in conds:
+            for c2 in conds:
+                s = "#pragma version 8\n" + t.replace("{C1}", "\n".join(c1)).replace("{C2}", "\n".join(c2))
+                if s not in seen:
+                    seen.add(s)
+                    out.append(("sound", s, None, None))
     # loops that really iterate (counter conditions): accepting runs take back edges
     for s in spaces.counted_loops(small[:3], tier, max_size=2 if tier == "quick" else 3):
         if s not in seen:
